@@ -6,7 +6,7 @@ import torch
 from hypothesis import strategies as st
 
 from vf import gen, refmodel as R
-from vf.common import Sub, require, expect_raises
+from vf.common import Sub, require, expect_raises, fail
 
 PROPERTY = "C16"
 RULE = ("Generated expression trees (recursive Hypothesis strategy, depth <= 6) over the built-in observables (SigmaX/Y/Z, "
@@ -75,7 +75,15 @@ def cases(draw, tier):
             la, lb = {"op": "*", "l": co, "r": la}, {"op": "*", "l": co, "r": lb}
         pair = {"op": draw(st.sampled_from(["+", "+", "-"])), "l": la, "r": lb}
         e = pair if draw(st.booleans()) else {"op": draw(st.sampled_from(["+", "-"])), "l": e, "r": pair}
-    return {"expr": e, "type": draw(st.sampled_from(gen.TYPES)), "n": draw(st.integers(2, 4)), "seed": draw(st.integers(0, 2 ** 31 - 1)),
+    if draw(st.integers(0, 7)) == 0:
+        # long time axis: a long chained sum c + t1 + t2 - t3 ... (13 to 24 levels nested through the left operand), starting from a scalar,
+        # from 0 (as the builtin sum does) or from the drawn expression
+        start = draw(st.one_of(num, st.just({"num": 0, "kind": "int"}), st.just(e)))
+        ch = {"op": draw(st.sampled_from(["+", "-"])), "l": start, "r": draw(leaf)}
+        for _ in range(draw(st.integers(12, 23))):
+            ch = {"op": draw(st.sampled_from(["+", "+", "-"])), "l": ch, "r": draw(st.one_of(leaf, leaf, num))}
+        e = ch
+    return {"expr": e, "type": draw(st.sampled_from(gen.TYPES)), "raising_leaf": draw(st.integers(0, 3)) == 0, "n": draw(st.integers(2, 4)), "seed": draw(st.integers(0, 2 ** 31 - 1)),
             "batch": draw(st.lists(st.integers(0, 15), min_size=2, max_size=6)), "long_batch": draw(st.integers(0, 3)) == 0}
 
 
@@ -226,6 +234,41 @@ def check(c):
     g3.add_(1.0)
     g4 = obs.apply(state, samples)
     require(torch.equal(g4, g3_keep), "apply:result-edit-leaks", "editing the tensor returned by composite.apply in place changed the next application", symbol=str(obs))
+    if c.get("raising_leaf"):
+        # after an exception: a composite one of whose leaves (a user observable) raises in one evaluation; the caller catches it, and the
+        # next evaluations of the same composite objects are the arithmetic on the leaves' values again
+        class Moody(ObservableBase):
+            def __init__(self):
+                self.name, self.symbol, self.fail = "Moody", "M", False
+
+            def apply(self, nn_state, samples):
+                if self.fail:
+                    raise RuntimeError("user observable refuses this batch")
+                return samples.to(dtype=torch.double).sum(1) - 0.75
+
+        moody = Moody()
+        comps = [(obs + moody, 1.0, 1.0), (moody - obs, -1.0, 1.0), (0.5 * (obs - moody) + obs, 1.5, -0.5)]
+        for trial in range(2):
+            moody.fail = True
+            for comp, _, _ in comps:
+                try:
+                    comp.apply(state, samples.clone())
+                    fail("raising-leaf:swallowed", "a composite swallowed the exception raised by one of its leaves")
+                except RuntimeError:
+                    pass
+            moody.fail = False
+            w0 = interp(e, state, samples)
+            wm = samples.double().sum(1) - 0.75
+            for comp, a_, b_ in comps:
+                gc_ = comp.apply(state, samples.clone()).double()
+                wc_ = a_ * w0 + b_ * wm
+                mg_ = magnitude(e, state, samples) * abs(a_) + wm.abs()
+                require(bool(torch.all((gc_ - wc_).abs() <= 1e-12 * mg_ + 1e-12)), "apply:value:after-raising-leaf",
+                        "a composite evaluated after an earlier evaluation of it was aborted by an exception from one of its leaves (caught) is not the "
+                        "arithmetic on the leaves' values", got=gc_.tolist(), want=wc_.tolist(), symbol=str(comp))
+        g5 = obs.apply(state, samples.clone()).double()
+        require(bool(torch.all((g5 - w0).abs() <= 1e-12 * w0.abs() + 1e-12 * min(1.0, float(w0.abs().max()) + 1e-30))), "apply:value:after-raising-leaf",
+                "the expression evaluated after composites built from it were aborted by an exception is not the arithmetic on its leaves", symbol=str(obs))
     refl = has(e, lambda x: "op" in x and "num" in x["l"] and x["op"] in "-*")
     sub_ = has(e, lambda x: x.get("op") == "-")
     return {"nontrivial": depth(e) >= 3 and refl and sub_, "labels": [f"depth={min(depth(e), 6)}", "type=" + c["type"]] + (["reflected"] if refl else [])}
